@@ -9,9 +9,21 @@ NAMES = ["alpha", "beta", "gamma"]
 _ARR = {n: np.arange(n) * 10 + 7 for n in range(4)}      # numpy arrays are built concretely (C boundary)
 
 
+_ELEM_ARRS = [np.array([8]), np.array([8, 4]), np.array([])]
+
+
+def _same_value(a, b):
+    """identical, or equal values of the very same type (a one-element array is not the number it contains)"""
+    if a is b:
+        return True
+    if type(a) is not type(b) or isinstance(a, np.ndarray):
+        return False
+    return a == b
+
+
 def _mk(kind, n, vals):
     """(declared value, list of the single values it stands for).  kinds: 0 int scalar, 1 None, 2 str (one value,
-    whatever its length), 3 list, 4 tuple, 5 range, 6 numpy array"""
+    whatever its length), 3 list, 4 tuple, 5 range, 6 numpy array, 7 list of numpy arrays"""
     if kind == 0:
         return vals[0], [vals[0]]
     if kind == 1:
@@ -27,6 +39,9 @@ def _mk(kind, n, vals):
         return tuple(lst), list(lst)
     if kind == 5:
         return range(n), list(range(n))
+    if kind == 7:               # a list whose single values are themselves numpy arrays (of 1, 2, 0 elements)
+        lst = [_ELEM_ARRS[i] for i in range(n)]
+        return lst, list(lst)
     arr = _ARR[0] if n == 0 else _ARR[1] if n == 1 else _ARR[2] if n == 2 else _ARR[3]
     return arr, [x for x in arr]
 
@@ -34,7 +49,7 @@ def _mk(kind, n, vals):
 def product(k0: int, n0: int, k1: int, n1: int, k2: int, n2: int, v0: int, v1: int, v2: int, v3: int, v4: int,
             v5: int, v6: int, v7: int, v8: int) -> bool:
     """
-    pre: 0 <= k0 < 7 and 0 <= k1 < 7 and 0 <= k2 < 7
+    pre: 0 <= k0 < 8 and 0 <= k1 < 8 and 0 <= k2 < 8
     pre: 0 <= n0 <= hx.P['L'] and 0 <= n1 <= hx.P['L'] and 0 <= n2 <= hx.P['L']
     post: _
     """
@@ -71,7 +86,7 @@ def product(k0: int, n0: int, k1: int, n1: int, k2: int, n2: int, v0: int, v1: i
             return hx.end(hx.fail("a combination lacks a parameter name or has them out of order", got=list(g.keys())))
         for name in e:
             a, b = g[name], e[name]
-            if not (a is b or a == b):
+            if not _same_value(a, b):
                 return hx.end(hx.fail("combination value / order", name=name, got=g, exp=e))
     # repeatable; independent dictionaries; the declaration is never changed
     again = pl.build()
@@ -80,7 +95,7 @@ def product(k0: int, n0: int, k1: int, n1: int, k2: int, n2: int, v0: int, v1: i
     for g, h in zip(got, again):
         if g is h:
             return hx.end(hx.fail("two builds share a dictionary"))
-        if list(g.items()) != list(h.items()) and not all(x is y or x == y for x, y in zip(g.values(), h.values())):
+        if list(g.keys()) != list(h.keys()) or not all(_same_value(x, y) for x, y in zip(g.values(), h.values())):
             return hx.end(hx.fail("second build differs"))
     for i in range(len(got)):
         for j in range(i + 1, len(got)):
@@ -93,7 +108,7 @@ def product(k0: int, n0: int, k1: int, n1: int, k2: int, n2: int, v0: int, v1: i
         third = pl.build()
         if len(third) != len(exp) or "__poison__" in third[0]:
             return hx.end(hx.fail("mutating a returned dictionary changed a later build"))
-        if p > 0 and not (third[0][NAMES[0]] is exp[0][NAMES[0]] or third[0][NAMES[0]] == exp[0][NAMES[0]]):
+        if p > 0 and not _same_value(third[0][NAMES[0]], exp[0][NAMES[0]]):
             return hx.end(hx.fail("mutating a returned dictionary changed a later build"))
     now = list(pl._parameters.items())
     if len(now) != len(before) or not all(a[0] == b[0] and a[1] is b[1] for a, b in zip(now, before)):
@@ -201,10 +216,10 @@ def obligations(tier):
     enc = (ParameterList.__init__, ParameterList.add_parameter, ParameterList.remove_parameter, ParameterList.build)
     if tier == "quick":
         parts = [{"p": 0, "L": 0, "route": "ctor"}, {"p": 1, "L": 3, "route": "ctor"}, {"p": 2, "L": 2, "route": "incr"},
-                 {"p": 2, "L": 2, "route": "ctor"}] + [{"p": 3, "L": 1, "route": "incr", "k0": k} for k in range(7)]
+                 {"p": 2, "L": 2, "route": "ctor"}] + [{"p": 3, "L": 1, "route": "incr", "k0": k} for k in range(8)]
     else:
         parts = [{"p": p, "L": L, "route": r} for r in ("ctor", "incr") for p, L in ((0, 0), (1, 3), (2, 3))]
-        parts += [{"p": 3, "L": 2, "route": r, "k0": k} for r in ("ctor", "incr") for k in range(7)]
+        parts += [{"p": 3, "L": 2, "route": r, "k0": k} for r in ("ctor", "incr") for k in range(8)]
 
     def lab(pt):
         if pt["p"] == 0:
